@@ -349,6 +349,43 @@ impl Sim {
                             Err(c) => return Err(unexpected(c, "World::extend", "C01")),
                         }
                     }
+                    3 => {
+                        // A ragged batch through the safe constructor: must be refused (by panicking).
+                        let site = *site as usize % g::EXTEND_SITES.len();
+                        let ncols = g::EXTEND_SITES[site].1.len();
+                        if ncols < 2 {
+                            return Ok(());
+                        }
+                        let n = (*n as usize).max(1).min(12);
+                        let bad_col = *extra as usize;
+                        let bad_len = match (seed >> 8) % 4 {
+                            0 => n - 1,
+                            1 => n + 1,
+                            2 => 0,
+                            _ => n / 2,
+                        };
+                        if bad_len == n {
+                            return Ok(());
+                        }
+                        let w = self.slots[si].world.as_mut().unwrap();
+                        let r = sut(|| g::extend_ragged(w, site, n, bad_col, bad_len, &|c, r| zoo::norm_for(c, mix(&[seed, c as u64, r as u64]))));
+                        return match r {
+                            Err(Caught::Other(_)) => {
+                                self.probes.hit("ragged_batch_refused");
+                                Ok(())
+                            }
+                            Err(c) => Err(unexpected(c, "Batch::new", "C05")),
+                            Ok(ids) => Err(viol(
+                                "C05",
+                                "ragged-batch-stored",
+                                format!(
+                                    "Batch::new accepted {ncols} columns of which column {} has {bad_len} elements and the others {n}; extend stored them and returned {} identifiers: rows now reach beyond a column's elements",
+                                    bad_col % ncols,
+                                    ids.len()
+                                ),
+                            )),
+                        };
+                    }
                     1 => {
                         let site = *site as usize % g::CLONED_SITES.len();
                         let n = if g::CLONED_SITES[site].0 == 0 { 0 } else { *n as usize };
